@@ -110,7 +110,10 @@ def _poly3(case, rec):
 def _poly2(case, rec):
     xy = gp.build_polygon_xy(case["poly"])
     em = gp.embed(xy, case["emb"])
-    sc = 10.0 ** case.get("logs", 0.0)
+    logs = case.get("logs", 0.0)
+    if logs > 5.0 and case["emb"]["place"] is not None:
+        logs = 5.0  # tilted planes only up to 1e5 (Polygon's documented planarity tolerance, see C04)
+    sc = 10.0 ** logs
     V, arg = em["verts"] * sc, em["normal_arg"]
     Vccw = V.copy()
     V = V[perm_from_noise(case["perm"], len(V))]  # ConvexSpheropolygon accepts any vertex order
